@@ -207,6 +207,8 @@ func (st *runState) client(sys *System, ci int, reqs []Req) {
 		method, path := r.URL()
 		rec.Path = path
 		res := r.Result
+		// fallback for statements issued under a context that is not derived from the request's
+		st.db.SetScript(res)
 		ctx, cancel := context.WithCancel(sqlfake.WithScript(context.Background(), &res))
 		if r.CancelUs > 0 {
 			tm := time.AfterFunc(time.Duration(r.CancelUs)*time.Microsecond, func() { rec.Cancelled = true; cancel() })
@@ -236,6 +238,9 @@ func (st *runState) client(sys *System, ci int, reqs []Req) {
 		rec.Returned = true
 		rec.EndT = time.Now()
 		rec.Stmts = st.db.ForScript(&res, from)
+		if len(rec.Stmts) == 0 && len(st.s.Clients) <= 1 {
+			rec.Stmts = st.db.Since(from)
+		}
 		if rec.Panicked == "" && rec.Status == 0 {
 			rec.Status = 200
 		}
